@@ -1053,13 +1053,16 @@ theorem parse_written {fs : FS} {p : Comps} {s : SD} {hdr : Bool} {ids : List Na
   simp only [parseFile, hx, hget, hj, hread]
   rfl
 
-/-- one `DictParser.parse(p, mode='w')` in terms of its read and its write -/
+/-- one `DictParser.parse(p, mode='w')` in terms of its read and its write; the value returned is the dict that was read,
+    re-typed by the writer (`_retype_values` works in place), which changes nothing here (`hnorm`) -/
 theorem parse_step (ev : Str → EvalResult) {fs : FS} {c c' c'' : Counter} {p : Comps} {b : FileBody} {sd : SD} {t : Str}
     (hget : fs.get (resolveSpelled p) = some b) (hread : readFile ev fs {} c p = .ok (.ok sd c'))
-    (hwrite : writeText ev fs (parseTarget p [] none) ['w'] false (.sd sd) c' = .ok (t, c'')) :
+    (hwrite : writeText ev fs (parseTarget p [] none) ['w'] false (.sd sd) c' = .ok (t, c''))
+    (hnorm : normEs sd.data = sd.data) :
     apiStep ev { fs := fs, c := c } (.parse p {} ['w'] none) =
       ({ fs := fs.set (resolveSpelled (parseTarget p [] none)) (.native t), c := c'' }, .data sd) := by
-  simp only [apiStep, hget, hread, writeTo, hwrite]
+  have e : ({ sd with data := normEs sd.data } : SD) = sd := by rw [hnorm]
+  simp only [apiStep, hget, hread, writeTo, hwrite, e]
 
 theorem read_step (ev : Str → EvalResult) {fs : FS} {c c' : Counter} {p : Comps} {b : FileBody} {sd : SD}
     (hget : fs.get (resolveSpelled p) = some b) (hread : readFile ev fs {} c p = .ok (.ok sd c')) :
@@ -1294,7 +1297,7 @@ theorem C03_included_parse_reread (S : Setup fs src c items gaps tail incs) (ev 
   have hw := writeText_rd ev fs h1 S.namesOK S.tgtNative c1
   have hget : (Setup.fs' fs src items incs).get (resolveSpelled (tgtOf src)) = some (.native (parsedText items incs)) :=
     C13api.get_set_self _ _ _
-  refine ⟨R1, c1, R2, c2, parse_step ev S.srcGet hrd1 hw, read_step ev hget hrd2, ?_, ?_, h1.agrees⟩
+  refine ⟨R1, c1, R2, c2, parse_step ev S.srcGet hrd1 hw h1.normData, read_step ev hget hrd2, ?_, ?_, h1.agrees⟩
   · rw [h2.dropPh, h1.dropPh]
   · rw [h2.tblFiles, h1.tblFiles]
 
@@ -1319,7 +1322,7 @@ theorem later_cycles (S : Setup fs src c items gaps tail incs) (ev : Str → Eva
     have hw := writeText_rd ev (Setup.fs' fs src items incs) h2 S.namesOK ht c3
     have hget : (Setup.fs' fs src items incs).get (resolveSpelled (tgtOf src)) = some (.native (parsedText items incs)) :=
       C13api.get_set_self _ _ _
-    have hstep := parse_step ev hget hrd hw
+    have hstep := parse_step ev hget hrd hw h2.normData
     have hfs : (Setup.fs' fs src items incs).set (resolveSpelled (parseTarget (tgtOf src) [] none))
         (.native (textOf (namesOf items) (mergedData items incs))) = Setup.fs' fs src items incs := by
       show (Setup.fs' fs src items incs).set (resolveSpelled (tgtOf (tgtOf src))) _ = _
@@ -1350,7 +1353,7 @@ theorem C03_included_cycles (S : Setup fs src c items gaps tail incs) (ev : Str 
         Agrees sdr (mergedData items incs) (namesOf items) := by
   obtain ⟨R1, c1, hv1, hrd1, h1⟩ := S.first_read ev
   have hw := writeText_rd ev fs h1 S.namesOK S.tgtNative c1
-  have hstep := parse_step ev S.srcGet hrd1 hw
+  have hstep := parse_step ev S.srcGet hrd1 hw h1.normData
   obtain ⟨c3, outs, hv3, hrun, hl, hall⟩ := later_cycles S ev n hv1
   obtain ⟨R2, c4, hv4, hrd2, h2⟩ := S.later_read ev hv3
   have hget : (Setup.fs' fs src items incs).get (resolveSpelled (tgtOf src)) = some (.native (parsedText items incs)) :=
@@ -1487,17 +1490,21 @@ theorem exSetup : Setup exFs exSrc none exItems exGaps ['\n'] [("inc".toList, ex
 theorem ex_merged : mergedData exItems [("inc".toList, exInc)] =
     [(.str ['a'], .leaf (.int 1)), (.str ['b'], .leaf (.int 3))] := by decide +kernel
 
-/-- the parsed file of the example -/
+theorem ex_text_entries : fmtPlain .native (mergedData exItems [("inc".toList, exInc)]) =
+    "a                             1;\nb                             3;\n".toList := by decide +kernel
+theorem ex_text_dirs : ((namesOf exItems).map dirLine).flatMap (· ++ ['\n']) = "#include inc\n".toList := by decide +kernel
+
+/-- the parsed file of the example: header, the directive again, the merged entries -/
 theorem ex_parsedText : parsedText exItems [("inc".toList, exInc)] =
-    nativeHeader ++ "#include inc\na                             1;\nb                             3;\n".toList := by
-  simp only [parsedText, textOf, ex_merged]
-  congr 1
-  decide +kernel
+    nativeHeader ++ ("#include inc\n".toList ++
+      "a                             1;\nb                             3;\n".toList) := by
+  show nativeHeader ++ (_ ++ _) = _
+  rw [ex_text_dirs, ex_text_entries]
 
 /-- the theorems on the example -/
-theorem ex_parse_reread (ev : Str → EvalResult) := C03_included_parse_reread exSetup ev
-theorem ex_cycles (ev : Str → EvalResult) (n : Nat) := C03_included_cycles exSetup ev n
-theorem ex_bytes (ev : Str → EvalResult) := C03_included_bytes exSetup ev
+example (ev : Str → EvalResult) := C03_included_parse_reread exSetup ev
+example (ev : Str → EvalResult) (n : Nat) := C03_included_cycles exSetup ev n
+example (ev : Str → EvalResult) := C03_included_bytes exSetup ev
 
 /-! ### the witness of the refutation: the same file included twice, once in single and once in double quotes -/
 
@@ -1541,22 +1548,30 @@ theorem dupSetupW : SetupW dupFs exSrc none dupItems dupGaps ['\n'] dupIncs wher
   tgtFresh := by decide +kernel
   nqW := by decide +kernel
 
-/-- cycle 1 writes the directive twice (`#include x`, `#include x`: both spellings are written bare); on reading that
-    file `_clean` finds two include entries with the same table value and deletes one; cycle 2 writes the directive once -/
-theorem dup_texts :
+/-- cycle 1 writes the directive twice (`#include x`, `#include x`: both spellings are written bare) … -/
+theorem dup_text1 :
     textAt (apiRun evalInt { fs := dupFs, c := none } (cycleOps exSrc 0)).1 (resolveSpelled (tgtOf exSrc)) =
-      some (nativeHeader ++ "#include x\n#include x\na                             1;\nb                             3;\n".toList) ∧
+      some (nativeHeader ++ "#include x\n#include x\na                             1;\nb                             3;\n".toList) := by
+  decide +kernel
+
+/-- … on reading that file `_clean` finds two include entries with the same table value and deletes one: cycle 2 writes
+    the directive once … -/
+theorem dup_text2 :
     textAt (apiRun evalInt { fs := dupFs, c := none } (cycleOps exSrc 1)).1 (resolveSpelled (tgtOf exSrc)) =
-      some (nativeHeader ++ "#include x\na                             1;\nb                             3;\n".toList) ∧
+      some (nativeHeader ++ "#include x\na                             1;\nb                             3;\n".toList) := by
+  decide +kernel
+
+/-- … and cycle 3 writes what cycle 2 wrote -/
+theorem dup_text3 :
     textAt (apiRun evalInt { fs := dupFs, c := none } (cycleOps exSrc 2)).1 (resolveSpelled (tgtOf exSrc)) =
       some (nativeHeader ++ "#include x\na                             1;\nb                             3;\n".toList) := by
-  refine ⟨by decide +kernel, by decide +kernel, by decide +kernel⟩
+  decide +kernel
 
 /-- **the bytes claim is false without `namesnd`** -/
 theorem C03_included_bytes_statement_false : ¬ C03_included_bytes_statement := by
   intro h
   have := h dupFs exSrc none dupItems dupGaps ['\n'] dupIncs dupSetupW
-  rw [dup_texts.1, dup_texts.2.1] at this
+  rw [dup_text1, dup_text2] at this
   revert this
   decide +kernel
 
